@@ -4,8 +4,9 @@ import Aiorpcx.C11.NotEarly
 # C11 — whole-program theorems: a block never runs past its deadline, and reports expiry
 exactly at it
 
-For programs that do not themselves catch or raise the cancellation family (`NoCatch`) and
-without an external `cancel()`.
+For programs that do not themselves catch or raise the cancellation family (`NoCatch`), contain
+no task group (`Flat`: a group's clean-up awaits its members' reactions while the cancellation is
+in flight, so the block is left later) and without an external `cancel()`.
 -/
 namespace Aiorpcx.C11
 
@@ -68,27 +69,27 @@ theorem aexit_frame (ig : Bool) (self : Int) (r : Res) (s : TS) :
 
 /-- **Time bound.**  Inside any active deadline `D` (with `B ≥ D` and `B ≥` the current time)
 no program runs past `B`. -/
-theorem run_TB (B D : Int) (p : Prog) : ∀ (s : TS), NoCatch p → Strong s → s.cancelAt = none →
+theorem run_TB (B D : Int) (p : Prog) : ∀ (s : TS), NoCatch p → Flat p → Strong s → s.cancelAt = none →
     D ∈ s.deadlines → s.now ≤ B → D ≤ B → TB B s (run true p s).2.1 (run true p s).1 := by
   induction p with
-  | skip => intro s _ hst hc _ hb _; exact ⟨rfl, hb, Int.le_refl _, hc, fun _ => hst⟩
-  | sleep d => intro s _ hst hc hD hb hDB; simpa [run] using doSleep_TB B D s d hst hc hD hb hDB
-  | raise e => intro s _ hst hc _ hb _; exact ⟨rfl, hb, Int.le_refl _, hc, fun _ => hst⟩
+  | skip => intro s _ _ hst hc _ hb _; exact ⟨rfl, hb, Int.le_refl _, hc, fun _ => hst⟩
+  | sleep d => intro s _ _ hst hc hD hb hDB; simpa [run] using doSleep_TB B D s d hst hc hD hb hDB
+  | raise e => intro s _ _ hst hc _ hb _; exact ⟨rfl, hb, Int.le_refl _, hc, fun _ => hst⟩
   | seq a b iha ihb =>
-    intro s hp hst hc hD hb hDB
-    have ha := iha s hp.1 hst hc hD hb hDB
+    intro s hp hf hst hc hD hb hDB
+    have ha := iha s hp.1 hf.1 hst hc hD hb hDB
     simp only [run]
     split
     · rename_i e he; rw [he] at ha; simpa [he] using ha
     · rename_i he
       rw [he] at ha
-      have hb' := ihb (run true a s).2.1 hp.2 (ha.strong trivial) ha.noCancel
+      have hb' := ihb (run true a s).2.1 hp.2 hf.2 (ha.strong trivial) ha.noCancel
         (by rw [ha.deadlines]; exact hD) ha.bound hDB
       exact ⟨by rw [hb'.deadlines, ha.deadlines], hb'.bound, Int.le_trans ha.mono hb'.mono,
              hb'.noCancel, hb'.strong⟩
   | tryCatch b cs hd ihb ihh =>
-    intro s hp hst hc hD hb hDB
-    have hb1 := ihb s hp.1 hst hc hD hb hDB
+    intro s hp hf hst hc hD hb hDB
+    have hb1 := ihb s hp.1 hf.1 hst hc hD hb hDB
     simp only [run]
     split
     · rename_i e he
@@ -102,16 +103,16 @@ theorem run_TB (B D : Int) (p : Prog) : ∀ (s : TS), NoCatch p → Strong s →
           | taskTimeout => trivial
           | uncaught => trivial
           | other => trivial
-        have hh := ihh (run true b s).2.1 hp.2.1 (hb1.strong hcont) hb1.noCancel
+        have hh := ihh (run true b s).2.1 hp.2.1 hf.2 (hb1.strong hcont) hb1.noCancel
           (by rw [hb1.deadlines]; exact hD) hb1.bound hDB
         exact ⟨by rw [hh.deadlines, hb1.deadlines], hh.bound, Int.le_trans hb1.mono hh.mono,
                hh.noCancel, hh.strong⟩
       · rw [he] at hb1; simpa [he] using hb1
     · rename_i he; rw [he] at hb1; simpa [he] using hb1
   | block ig rel t body ih =>
-    intro s hp hst hc hD hb hDB
+    intro s hp hf hst hc hD hb hDB
     simp only [run]
-    have hbody := ih (enter s (if rel then s.now + t else t)) hp (enter_strong _ _ hst)
+    have hbody := ih (enter s (if rel then s.now + t else t)) hp hf (enter_strong _ _ hst)
       (by simpa [enter] using hc) (by simp [enter, hD]) (by simpa [enter] using hb) hDB
     obtain ⟨f1, f2, f3, f4⟩ := aexit_frame ig (if rel then s.now + t else t)
       (run true body (enter s (if rel then s.now + t else t))).1
@@ -121,6 +122,7 @@ theorem run_TB (B D : Int) (p : Prog) : ∀ (s : TS), NoCatch p → Strong s →
     · rw [f1]; exact hbody.bound
     · rw [f1]; have := hbody.mono; simpa [enter] using this
     · rw [f2]; exact hbody.noCancel
+  | group anyp ms body _ => intro s _ hf; exact absurd hf id
 
 /-- **A block never runs past its deadline, and expiry is reported exactly at it.**  For an
 outermost timeout block (any of the four forms) entered at `t0` with deadline `d`, around any
@@ -128,14 +130,15 @@ body that does not itself catch the cancellation family, with no external cancel
 exited by `max t0 d`; and if it reports `expired`, it exited at exactly `max t0 d` - at `d` itself
 unless the deadline was already past on entry - raising `TaskTimeout` (timeout forms) or
 nothing (ignore forms). -/
-theorem fires_at_deadline (ig rel : Bool) (t t0 : Int) (body : Prog) (hp : NoCatch body) :
+theorem fires_at_deadline (ig rel : Bool) (t t0 : Int) (body : Prog) (hp : NoCatch body)
+    (hf : Flat body) :
     let d := if rel then t0 + t else t
     let r := run true (.block ig rel t body) { now := t0 }
     r.2.1.now ≤ max t0 d ∧
     ∀ res tm, r.2.2.getLast? = some (Ev.exit d res true tm) →
       tm = max t0 d ∧ r.1 = (if ig then none else some .taskTimeout) := by
   intro d r
-  have hbody := run_TB (max t0 d) d body (enter { now := t0 } d) hp
+  have hbody := run_TB (max t0 d) d body (enter { now := t0 } d) hp hf
     (by simp [Strong, enter, minL]) rfl (by simp [enter]) (by simp [enter]; omega) (by omega)
   have hK := run_K true body (enter { now := t0 } d) (by intro m hm; simp [enter] at hm)
   have hnow : r.2.1.now = (run true body (enter { now := t0 } d)).2.1.now := by
